@@ -161,9 +161,18 @@ class StrLang:
             return d
         if k == "slice":
             _, base, has_lo, has_hi, vals = o
-            bl = self.lang(base, st)
             if has_lo and not has_hi and len(vals) == 1 and isinstance(vals[0], Num) and vals[0].lin.is_const() and vals[0].lin.k == 1:
-                return bl.drop_first()
+                return self.lang(base, st).drop_first()
+            if has_lo and has_hi and len(vals) == 2 and all(isinstance(x, Num) and x.lin.is_const() and x.lin.k.denominator == 1 for x in vals):
+                a_, b_ = int(vals[0].lin.k), int(vals[1].lin.k)
+                if 0 <= a_ == b_:
+                    return RL.lit("")                       # s[a:a]
+                if 0 <= a_ and b_ == a_ + 1 and isinstance(base, Unk):
+                    # s[a:a+1] is the character s[a] (the facts recorded about that item apply); shorter only at the very end
+                    # of s, which a preceding read of s[a] on the same path excludes
+                    item = Unk(("item", base.term, a_))
+                    if self.eng.origin.get(item.term) is not None or any(True for _ in self.member_sets(item, st)):
+                        return self.lang(item, st)
             raise Unsupported("slice form not supported")
         if k == "item":
             return RL.compile_regex(("set", frozenset(RL.ALPHABET)))
